@@ -94,6 +94,10 @@ package cty
 //@   writes cty.refinementString (wip_str recv)
 //@   writes cty.refinementCollection (wip_coll recv)
 //@   writes cty.refinementNullable (wip_nul recv)
+//@   ensures (=> ((_ is box<*cty.refinementNumber>) recv) (let ((o (old ($at<cty.refinementNumber> (wip_num recv))))) (= ($at<cty.refinementNumber> (wip_num recv)) (mk.cty.refinementNumber (mk.cty.refinementNullable arg0) (cty.refinementNumber.min o) (cty.refinementNumber.max o) (cty.refinementNumber.minInc o) (cty.refinementNumber.maxInc o)))))
+//@   ensures (=> ((_ is box<*cty.refinementString>) recv) (let ((o (old ($at<cty.refinementString> (wip_str recv))))) (= ($at<cty.refinementString> (wip_str recv)) (mk.cty.refinementString (mk.cty.refinementNullable arg0) (cty.refinementString.prefix o)))))
+//@   ensures (=> ((_ is box<*cty.refinementCollection>) recv) (let ((o (old ($at<cty.refinementCollection> (wip_coll recv))))) (= ($at<cty.refinementCollection> (wip_coll recv)) (mk.cty.refinementCollection (mk.cty.refinementNullable arg0) (cty.refinementCollection.minLen o) (cty.refinementCollection.maxLen o)))))
+//@   ensures (=> ((_ is box<*cty.refinementNullable>) recv) (= ($at<cty.refinementNullable> (wip_nul recv)) (mk.cty.refinementNullable arg0)))
 //
 //@ func (*cty.refinementString).copy
 //@   tags C20
